@@ -15,6 +15,8 @@ From TS Require Import Spec.C10GoGrammar.
 From TS Require Proofs.C10_GOGrammarTok Proofs.C10_GOGrammarSemi Proofs.C10_GOGrammarParse Proofs.C10_GOGrammar Proofs.C10_GOGrammarFile.
 From TS Require Import Spec.C10SwGrammar.
 From TS Require Proofs.C10_SWGrammarTok Proofs.C10_SWGrammarParse Proofs.C10_SWGrammarDecl Proofs.C10_SWGrammar Proofs.C10_SWGrammarFile.
+From TS Require Import Spec.C10ScGrammar.
+From TS Require Proofs.C10_SCGrammarTok Proofs.C10_SCGrammarParse Proofs.C10_SCGrammar Proofs.C10_SCGrammarFile.
 From TS Require Props.C10.
 
 Goal forall (cfg : c10_lexcfg) (t : str), c10_balanced cfg t = true ->
@@ -469,3 +471,120 @@ Goal exists text, dom_C10 CSW Proofs.C10_SWGrammarFile.w_label_prog = true /\
     contains_sub (lit "public init(let: String)") text = true /\ good_C10_lex CSW text = true /\ c10_sw_recognise text = None.
 Proof. exact Props.C10.C10_swift_label_rejected. Qed.
 Print Assumptions Props.C10.C10_swift_label_rejected.
+Goal forall (a : str) (ta : list c10_utok) (b : str) (tb : list c10_utok),
+    c10_sc_tokens (S (List.length a)) a = Some ta -> c10_sc_tokens (S (List.length b)) b = Some tb ->
+    Proofs.C10_SCGrammarTok.glue a b = true ->
+    c10_sc_tokens (S (List.length (a ++ b))) (a ++ b) = Some (ta ++ tb).
+Proof. exact Props.C10.C10_sc_tokens_frame. Qed.
+Print Assumptions Props.C10.C10_sc_tokens_frame.
+Goal forall r0 c0 p0 a a' r1 c1 p1 b b' r2 c2 p2,
+    Proofs.C10_SCGrammarParse.NR r0 c0 p0 a a' r1 c1 p1 -> Proofs.C10_SCGrammarParse.NR r1 c1 p1 b b' r2 c2 p2 ->
+    Proofs.C10_SCGrammarParse.NR r0 c0 p0 (a ++ b) (a' ++ b') r2 c2 p2.
+Proof. exact Props.C10.C10_sc_newlines_compose. Qed.
+Print Assumptions Props.C10.C10_sc_newlines_compose.
+Goal forall (t rest : list c10_utok),
+    Proofs.C10_SCGrammarParse.Gt Proofs.C10_SCGrammarParse.TTy t -> Proofs.C10_SCGrammarParse.tfol rest ->
+    c10_sc_type (t ++ rest) = Some rest.
+Proof. exact Props.C10.C10_sc_type_grammar_complete. Qed.
+Print Assumptions Props.C10.C10_sc_type_grammar_complete.
+Goal forall (top cl : bool) (ds : list (list c10_utok)) (ns : list nat),
+    Forall2 (Proofs.C10_SCGrammarParse.StatOk top) ds ns ->
+    forall (f : nat) (rest : list c10_utok), (2 * List.length (Proofs.C10_SCGrammarParse.seq_toks ds) + 5 <= f)%nat ->
+      c10_sq f (UStats top cl) (Proofs.C10_SCGrammarParse.seq_toks ds ++ Proofs.C10_SCGrammarParse.tail_toks cl rest) =
+      Some (fold_right plus O ns, Proofs.C10_SCGrammarParse.tail_rest cl rest).
+Proof. exact Props.C10.C10_sc_stats_grammar_complete. Qed.
+Print Assumptions Props.C10.C10_sc_stats_grammar_complete.
+Goal forall d : sc_decl, Proofs.C10_SCGrammar.c10_scg_decl_ok d ->
+    Proofs.C10_SCGrammar.PSd (Proofs.C10_SCGrammar.decl_top d) (sc_render_decl d).
+Proof. exact Props.C10.C10_sc_layout_pieces. Qed.
+Print Assumptions Props.C10.C10_sc_layout_pieces.
+Goal forall ds : list sc_decl, Forall (fun d => Proofs.C10_SCGrammar.c10_scg_decl_ok d /\ Proofs.C10_SCGrammar.decl_top d = true) ds ->
+    exists n : nat, c10_sc_recognise (List.concat (map sc_render_decl ds)) = Some n /\ (List.length ds <= n)%nat.
+Proof. exact Props.C10.C10_sc_layout_grammar_top. Qed.
+Print Assumptions Props.C10.C10_sc_layout_grammar_top.
+Goal forall (init : list str) (last : str) (das dps : list sc_decl),
+    init <> [] -> Forall Proofs.C10_SCGrammar.gname init -> Proofs.C10_SCGrammar.gname last ->
+    Forall (fun d => Proofs.C10_SCGrammar.c10_scg_decl_ok d /\ Proofs.C10_SCGrammar.decl_top d = false) das ->
+    Forall (fun d => Proofs.C10_SCGrammar.c10_scg_decl_ok d /\ Proofs.C10_SCGrammar.decl_top d = true) dps ->
+    exists n : nat,
+      c10_sc_recognise (lit "package " ++ join [46%N] init ++ sc_nl ++ sc_nl ++
+                        lit "package object " ++ last ++ lit " {" ++ sc_nl ++ sc_nl ++ List.concat (map sc_render_decl das) ++ lit "}" ++ sc_nl ++
+                        lit "package " ++ last ++ lit " {" ++ sc_nl ++ sc_nl ++ List.concat (map sc_render_decl dps) ++ lit "}" ++ sc_nl) = Some n /\
+      (List.length das + List.length dps <= n)%nat.
+Proof. exact Props.C10.C10_sc_layout_grammar. Qed.
+Print Assumptions Props.C10.C10_sc_layout_grammar.
+Goal forall (uc : unicode) (cfg : sc_config) (pd : parsed) (text : str),
+    Proofs.C10_SC.c10_sc_cfg_ok cfg = true -> Proofs.C10_SCGrammarFile.c10_scg_cfg_ok cfg ->
+    dom_C10 CSC pd = true -> Proofs.C10_SCGrammarFile.c10_scg_dom pd -> Proofs.C10_SCGrammarFile.c10_scg_toplevel_ok cfg pd ->
+    sc_generate uc cfg pd = Ok text ->
+    exists n : nat, c10_sc_recognise text = Some n /\
+                    (List.length (p_aliases pd) + List.length (p_structs pd) + List.length (p_enums pd) <= n)%nat.
+Proof. exact Props.C10.C10_grammar_scala. Qed.
+Print Assumptions Props.C10.C10_grammar_scala.
+Goal forall (uc : unicode) (cfg : sc_config) (pd : parsed) (text : str),
+    Proofs.C10_SC.c10_sc_cfg_ok cfg = true -> Proofs.C10_SCGrammarFile.c10_scg_cfg_ok cfg -> dom_C10 CSC pd = true ->
+    known_C10 CSC (sc_package cfg) pd = [] -> known_C10_sc_grammar (sc_package cfg) pd = [] ->
+    Proofs.C10_SCGrammarFile.c10_scg_overrides_ok pd ->
+    sc_generate uc cfg pd = Ok text ->
+    exists n : nat, c10_sc_recognise text = Some n /\
+                    (List.length (p_aliases pd) + List.length (p_structs pd) + List.length (p_enums pd) <= n)%nat.
+Proof. exact Props.C10.C10_grammar_scala_classes. Qed.
+Print Assumptions Props.C10.C10_grammar_scala_classes.
+Goal forall (uc : unicode) (cfg : sc_config) (pd : parsed) (text : str),
+    Proofs.C10_SC.c10_sc_cfg_ok cfg = true -> Proofs.C10_SCGrammarFile.c10_scg_cfg_simple cfg = true -> dom_C10 CSC pd = true ->
+    known_C10 CSC (sc_package cfg) pd = [] -> known_C10_sc_grammar (sc_package cfg) pd = [] ->
+    Proofs.C10_SCGrammarFile.c10_scg_overrides_simple pd = true ->
+    sc_generate uc cfg pd = Ok text ->
+    exists n : nat, c10_sc_recognise text = Some n /\
+                    (List.length (p_aliases pd) + List.length (p_structs pd) + List.length (p_enums pd) <= n)%nat.
+Proof. exact Props.C10.C10_grammar_scala_simple. Qed.
+Print Assumptions Props.C10.C10_grammar_scala_simple.
+Goal Proofs.C10_SC.c10_sc_cfg_ok Proofs.C10_SCGrammarFile.g_cfg = true /\ Proofs.C10_SCGrammarFile.c10_scg_cfg_ok Proofs.C10_SCGrammarFile.g_cfg /\
+  dom_C10 CSC Proofs.C10_SCGrammarFile.g_prog = true /\ Proofs.C10_SCGrammarFile.c10_scg_dom Proofs.C10_SCGrammarFile.g_prog /\
+  Proofs.C10_SCGrammarFile.c10_scg_toplevel_ok Proofs.C10_SCGrammarFile.g_cfg Proofs.C10_SCGrammarFile.g_prog /\
+  known_C10 CSC (sc_package Proofs.C10_SCGrammarFile.g_cfg) Proofs.C10_SCGrammarFile.g_prog = [] /\
+  known_C10_sc_grammar (sc_package Proofs.C10_SCGrammarFile.g_cfg) Proofs.C10_SCGrammarFile.g_prog = [] /\
+  sc_generate uc_exec Proofs.C10_SCGrammarFile.g_cfg Proofs.C10_SCGrammarFile.g_prog = Ok Proofs.C10_SCGrammarFile.g_text /\
+  c10_sc_recognise Proofs.C10_SCGrammarFile.g_text = Some 12%nat /\
+  contains_sub (lit "package object onepassword {") Proofs.C10_SCGrammarFile.g_text = true /\
+  contains_sub (lit "case class Person[T, U] (") Proofs.C10_SCGrammarFile.g_text = true /\
+  contains_sub (lit "first_name: Option[Option[String]] = None,") Proofs.C10_SCGrammarFile.g_text = true /\
+  contains_sub (lit "case class S[T](content: ESInner[T]) extends E[T] {") Proofs.C10_SCGrammarFile.g_text = true /\
+  c10_sc_recognise (firstn (List.length Proofs.C10_SCGrammarFile.g_text - 3) Proofs.C10_SCGrammarFile.g_text) = None /\
+  c10_sc_recognise (Proofs.C10_SCGrammarFile.g_drop_first 40 Proofs.C10_SCGrammarFile.g_text) = None /\
+  c10_sc_recognise (Proofs.C10_SCGrammarFile.g_subst_first 61 58 Proofs.C10_SCGrammarFile.g_text) = None /\
+  c10_sc_recognise (Proofs.C10_SCGrammarFile.g_drop_first 44 Proofs.C10_SCGrammarFile.g_text) = None /\
+  c10_sc_recognise (Proofs.C10_SCGrammarFile.g_drop_first 91 Proofs.C10_SCGrammarFile.g_text) = None.
+Proof. exact Props.C10.C10_grammar_scala_witness. Qed.
+Print Assumptions Props.C10.C10_grammar_scala_witness.
+Goal exists text, dom_C10 CSC Proofs.C10_SCGrammarFile.k_prog = true /\
+    known_C10 CSC (sc_package Proofs.C10_SCGrammarFile.g_cfg) Proofs.C10_SCGrammarFile.k_prog = [] /\
+    known_C10_sc_grammar (sc_package Proofs.C10_SCGrammarFile.g_cfg) Proofs.C10_SCGrammarFile.k_prog = ["C10-scala-keyword-name"%string] /\
+    sc_generate uc_exec Proofs.C10_SCGrammarFile.g_cfg Proofs.C10_SCGrammarFile.k_prog = Ok text /\
+    contains_sub (lit "type: String,") text = true /\ contains_sub (lit "val: Int") text = true /\
+    good_C10_lex CSC text = true /\ c10_sc_recognise text = None.
+Proof. exact Props.C10.C10_scala_keyword_name_refuted. Qed.
+Print Assumptions Props.C10.C10_scala_keyword_name_refuted.
+Goal exists text, Proofs.C10_SC.c10_sc_cfg_ok Proofs.C10_SCGrammarFile.t_cfg = true /\ dom_C10 CSC Proofs.C10_SCGrammarFile.t_prog = true /\
+    known_C10 CSC (sc_package Proofs.C10_SCGrammarFile.t_cfg) Proofs.C10_SCGrammarFile.t_prog = [] /\
+    known_C10_sc_grammar (sc_package Proofs.C10_SCGrammarFile.t_cfg) Proofs.C10_SCGrammarFile.t_prog = ["C10-scala-toplevel-alias"%string] /\
+    sc_generate uc_exec Proofs.C10_SCGrammarFile.t_cfg Proofs.C10_SCGrammarFile.t_prog = Ok text /\
+    starts_with (lit "type UByte = Byte") text = true /\ contains_sub (lit "type Al = Vector[UInt]") text = true /\
+    contains_sub (lit "package") text = false /\ good_C10_lex CSC text = true /\ c10_sc_recognise text = None.
+Proof. exact Props.C10.C10_scala_toplevel_alias_refuted. Qed.
+Print Assumptions Props.C10.C10_scala_toplevel_alias_refuted.
+Goal exists text, dom_C10 CSC Proofs.C10_SCGrammarFile.c_prog = true /\
+    known_C10 CSC (sc_package Proofs.C10_SCGrammarFile.g_cfg) Proofs.C10_SCGrammarFile.c_prog = [] /\
+    known_C10_sc_grammar (sc_package Proofs.C10_SCGrammarFile.g_cfg) Proofs.C10_SCGrammarFile.c_prog = ["C10-scala-content-key"%string] /\
+    sc_generate uc_exec Proofs.C10_SCGrammarFile.g_cfg Proofs.C10_SCGrammarFile.c_prog = Ok text /\
+    contains_sub (lit "case class A(my-content: String) extends E {") text = true /\
+    good_C10_lex CSC text = true /\ c10_sc_recognise text = None.
+Proof. exact Props.C10.C10_scala_content_key_refuted. Qed.
+Print Assumptions Props.C10.C10_scala_content_key_refuted.
+Goal exists text, dom_C10 CSC Proofs.C10_SCGrammarFile.d_prog = true /\
+    known_C10 CSC (sc_package Proofs.C10_SCGrammarFile.g_cfg) Proofs.C10_SCGrammarFile.d_prog = ["C10-scala-default"%string] /\
+    known_C10_sc_grammar (sc_package Proofs.C10_SCGrammarFile.g_cfg) Proofs.C10_SCGrammarFile.d_prog = [] /\
+    sc_generate uc_exec Proofs.C10_SCGrammarFile.g_cfg Proofs.C10_SCGrammarFile.d_prog = Ok text /\
+    contains_sub (lit "x: String = _") text = true /\ c10_sc_recognise text = None.
+Proof. exact Props.C10.C10_scala_default_rejected. Qed.
+Print Assumptions Props.C10.C10_scala_default_rejected.
